@@ -60,11 +60,11 @@ def legs(quick):
     # leg 1: transition cover of the CIDR trie graph (v4), plus the seeded random sequences (v4 and v6)
     out.append(dict(BASE, design=S_DESIGN,
                     gen={"module": "Gen_Trie", "cfg": "Gen_cover_S4q.cfg", "thorough_cfg": "Gen_cover_S4.cfg", "workers": 4,
-                         "max": 500, "thorough_max": 30000, "thorough_timeout": 1500},
-                    n_random=(150, 4000)))
+                         "max": 400, "thorough_max": 30000, "thorough_timeout": 1500},
+                    n_random=(100, 4000)))
     # leg 2: long TLC random walks over both structures (v6)
     out.append(dict(BASE, design=[],
-                    gen={"module": "Gen_Trie", "cfg": "Gen_sim6.cfg", "simulate": {"num": 60, "depth": 40},
+                    gen={"module": "Gen_Trie", "cfg": "Gen_sim6.cfg", "simulate": {"num": 40, "depth": 40},
                          "thorough_simulate": {"num": 1500, "depth": 40}},
                     n_random=(0, 0)))
     if not quick:
